@@ -4,8 +4,10 @@
   mul <kind> <val> <kind> <val>        → "<model> <spec>"
   fmul <kind> <val> <kind> <val>       → "<model>\t-"   (a float operand: the documented ε-rule, `NumFloat.multipleOfNum`;
                                           the model observation is the oracle)
-  xcmp <op> OPND OPND / xmul OPND OPND  → "<model>\t-"   an operand `toNum` does not hold: both go through
-                                          `coerce.ToFloat64` (`xval`); OPND = <kind> <val> | nx 0 (a named numeric type:
+  xcmp <op> OPND OPND / xmul OPND OPND  → "<model>\t<spec>"   an operand `toNum` does not hold (big integers: the exact
+                                          `big.Int` path; complex: `coerce.ToFloat64`, `xval`); spec = the comparison of the
+                                          values / integer divisibility when both operands denote a number exactly
+                                          (built-in kinds, uintptr, big integers), `-` otherwise; OPND = <kind> <val> | nx 0 (a named numeric type:
                                           not numeric for the code) | cx <bits of |z|> (complex: magnitude, as Go
                                           computed it) | big <dec> (a *big.Int)
   kind ∈ i8 i16 i32 i64 int u8 u16 u32 u64 uint uptr (val = decimal integer; uptr = uintptr, held as a uint64)
@@ -61,6 +63,32 @@ def xval : Opnd → Option F
     | .ok x => some x
     | .error _ => none
 
+/-- `toBig` of the fixed code: the exact value of a big integer or of a built-in integer. -/
+def Opnd.toBig? : Opnd → Option Int
+  | .big v => some v
+  | .num (.i v) => some v
+  | .num (.u v) => some v
+  | .uptr v => some v
+  | _ => none
+
+def isBigOp : Opnd → Bool
+  | .big _ => true
+  | _ => false
+
+/-- `cmpBig` of the fixed code (at least one operand is a big integer): integers by `big.Int.Cmp`,
+    a big integer against a float64 exactly (`big.Float.Cmp`; NaN unordered, infinities by sign);
+    `none` = not decided here (a complex operand: the magnitude path). -/
+def cmpBigOp (a b : Opnd) : Option (Option Ordering) :=
+  match a.toBig?, b.toBig? with
+  | some x, some y => some (some (compare x y))
+  | some x, none => (match b with
+    | .num (.f y) => some (F.cmp (.fin x 0) y)
+    | _ => none)
+  | none, some y => (match a with
+    | .num (.f x) => some (F.cmp x (.fin y 0))
+    | _ => none)
+  | none, none => none
+
 def isNamed : Opnd → Bool
   | .named => true
   | _ => false
@@ -76,6 +104,10 @@ def xcmp (op : CmpOp) (a b : Opnd) : Bool :=
   | some x, some y => implCmp op x y
   | _, _ =>
     if isNamed a || isNamed b then false else
+    match (if isBigOp a || isBigOp b then cmpBigOp a b else none) with
+    | some (some o) => op.ofOrdering o
+    | some none => false
+    | none =>
     match xval a, xval b with
     | some x, some y => (match F.cmp x y with
       | some o => op.ofOrdering o
@@ -92,11 +124,48 @@ def xmul (a b : Opnd) : Bool :=
   | some r => r
   | none =>
     if isNamed a || isNamed b then false else
+    let bigs := if isBigOp a || isBigOp b then
+        (match a.toBig?, b.toBig? with
+          | some x, some y => some (specMultipleOfInt x y)     -- y.Sign() != 0 && Rem(x, y).Sign() == 0
+          | _, _ => none)
+      else none
+    match bigs with
+    | some r => r
+    | none =>
     match xval a, xval b with
     | some x, some y => NumFloat.floatMultipleOf x y
     | _, _ => false
 
 def b2s (b : Bool) : String := if b then "1" else "0"
+
+/-! ### specification for operands that denote a number exactly (built-in kinds, uintptr, big
+     integers): the mathematical comparison / integer divisibility, written against the values, not
+     against the code's paths.  Complex and named-type operands have none (`-`). -/
+
+def Opnd.value? : Opnd → Option F
+  | .num n => some n.toF
+  | .uptr v => some (.fin v 0)
+  | .big v => some (.fin v 0)
+  | _ => none
+
+def Opnd.intValue? : Opnd → Option Int
+  | .num (.i v) => some v
+  | .num (.u v) => some v
+  | .uptr v => some v
+  | .big v => some v
+  | _ => none
+
+def specXcmp (op : CmpOp) (a b : Opnd) : String :=
+  match a.value?, b.value? with
+  | some x, some y => (match F.cmp x y with
+    | some o => b2s (op.ofOrdering o)
+    | none => "0")
+  | _, _ => "-"
+
+def specXmul (a b : Opnd) : String :=
+  match a.intValue?, b.intValue? with
+  | some v, some d => b2s (specMultipleOfInt v d)
+  | _, _ => "-"
 
 def specMul (a b : Num) : Option Bool :=
   match a, b with
@@ -120,11 +189,11 @@ def handle : List String → String
     | _, _ => "bad-op"
   | ["xcmp", op, ka, a, kb, b] =>
     match CmpOp.ofString? op, parseOpnd ka a, parseOpnd kb b with
-    | some op, some x, some y => s!"{b2s (xcmp op x y)}\t-"
+    | some op, some x, some y => s!"{b2s (xcmp op x y)}\t{specXcmp op x y}"
     | _, _, _ => "bad-op"
   | ["xmul", ka, a, kb, b] =>
     match parseOpnd ka a, parseOpnd kb b with
-    | some x, some y => s!"{b2s (xmul x y)}\t-"
+    | some x, some y => s!"{b2s (xmul x y)}\t{specXmul x y}"
     | _, _ => "bad-op"
   | ["fmul", ka, a, kb, b] =>
     match parseOpnd ka a, parseOpnd kb b with
